@@ -11,6 +11,7 @@ import (
 	"go/format"
 	"go/parser"
 	"go/token"
+	"go/types"
 	"os"
 	"path/filepath"
 	"sort"
@@ -21,6 +22,8 @@ import (
 const modPath = "github.com/z7zmey/php-parser"
 const simPkg = modPath + "/pkg/zzsim"
 const syncPkg = modPath + "/pkg/zzsimsync"
+const flagPkg = modPath + "/pkg/zzsimflag"
+const osPkg = modPath + "/pkg/zzsimos"
 const bigFile = 300000
 
 type site struct {
@@ -41,6 +44,8 @@ type report struct {
 	ChanWrapped []string          `json:"chan_wrapped"`
 	Gosched     []string          `json:"gosched"`
 	Knob        map[string]string `json:"knob"`
+	CLI         []string          `json:"cli_redirected"` // process-global facilities redirected in cmd/php-parser
+	CLIMain     bool              `json:"cli_main"`       // func main found and exported as ZZMain
 }
 
 var rep = report{Files: map[string]int{}, Knob: map[string]string{}}
@@ -131,6 +136,42 @@ func (in *inst) chanWait(s ast.Stmt) ast.Stmt {
 				w = simCall("WaitRecv", ch)
 			}
 		}
+	case *ast.SelectStmt:
+		// a select with a default clause never blocks; otherwise yield until
+		// at least one of its cases can proceed
+		var chans, sends []ast.Expr
+		hasDefault := false
+		for _, c := range x.Body.List {
+			cc := c.(*ast.CommClause)
+			switch y := cc.Comm.(type) {
+			case nil:
+				hasDefault = true
+			case *ast.SendStmt:
+				chans, sends = append(chans, y.Chan), append(sends, ast.NewIdent("true"))
+			case *ast.ExprStmt:
+				if ch := recvOf(y.X); ch != nil {
+					chans, sends = append(chans, ch), append(sends, ast.NewIdent("false"))
+				}
+			case *ast.AssignStmt:
+				if len(y.Rhs) == 1 {
+					if ch := recvOf(y.Rhs[0]); ch != nil {
+						chans, sends = append(chans, ch), append(sends, ast.NewIdent("false"))
+					}
+				}
+			}
+		}
+		p := in.fset.Position(s.Pos())
+		if hasDefault {
+			rep.ChanWrapped = append(rep.ChanWrapped, fmt.Sprintf("%s:%d(select/default)", in.rel, p.Line))
+			return nil
+		}
+		w = &ast.ExprStmt{X: &ast.CallExpr{
+			Fun: &ast.SelectorExpr{X: ast.NewIdent("zzsim"), Sel: ast.NewIdent("WaitSelect")},
+			Args: []ast.Expr{
+				&ast.CompositeLit{Type: &ast.ArrayType{Elt: &ast.InterfaceType{Methods: &ast.FieldList{}}}, Elts: chans},
+				&ast.CompositeLit{Type: &ast.ArrayType{Elt: ast.NewIdent("bool")}, Elts: sends},
+			},
+		}}
 	}
 	if w != nil {
 		in.used = true
@@ -206,8 +247,6 @@ func unwrappable(f *ast.File) (found []string) {
 	})
 	ast.Inspect(f, func(n ast.Node) bool {
 		switch x := n.(type) {
-		case *ast.SelectStmt:
-			found = append(found, "select")
 		case *ast.UnaryExpr:
 			if x.Op == token.ARROW && !stmtLevel[x] {
 				found = append(found, "recv-in-expr")
@@ -291,20 +330,44 @@ func processFile(root, path string, isCmd bool) error {
 					p := fset.Position(g.Pos())
 					rep.GoStmts = append(rep.GoStmts, fmt.Sprintf("%s:%d", rel, p.Line))
 					in.used = true
-					(*l)[i] = &ast.ExprStmt{X: &ast.CallExpr{
+					// arguments are evaluated by the go statement itself, not by
+					// the new goroutine
+					var pre []ast.Stmt
+					if len(g.Call.Args) > 0 {
+						as := &ast.AssignStmt{Tok: token.DEFINE}
+						for k, a := range g.Call.Args {
+							nm := ast.NewIdent("zzarg" + strconv.Itoa(k))
+							as.Lhs = append(as.Lhs, nm)
+							as.Rhs = append(as.Rhs, a)
+							g.Call.Args[k] = ast.NewIdent(nm.Name)
+						}
+						pre = append(pre, as)
+					}
+					call := &ast.ExprStmt{X: &ast.CallExpr{
 						Fun: &ast.SelectorExpr{X: ast.NewIdent("zzsim"), Sel: ast.NewIdent("Go")},
 						Args: []ast.Expr{&ast.FuncLit{
 							Type: &ast.FuncType{Params: &ast.FieldList{}},
 							Body: &ast.BlockStmt{List: []ast.Stmt{&ast.ExprStmt{X: g.Call}}},
 						}},
 					}}
+					blk := &ast.BlockStmt{List: append(pre, call)}
+					in.done[blk] = true
+					(*l)[i] = blk
 				}
 			}
 		}
 		return true
 	})
 
+	if isCmd {
+		rewriteCmd(fset, f, rel, in)
+	}
+	desugarChanRanges(fset, f, rel)
+
 	in.walk(f)
+	if isCmd {
+		fixUnusedImports(f)
+	}
 
 	// knob
 	if rel == "pkg/token/pool.go" || rel == "pkg/position/pool.go" {
@@ -498,4 +561,192 @@ func generate(root, dir string) error {
 	b.WriteString("}\n\n// markSites marks the sites of one class for the site-biased scheduler.\nfunc markSites(class string) {\n\tfor i := range zzsim.SiteMark {\n\t\tzzsim.SiteMark[i] = 0\n\t}\n\tfor _, r := range siteClassRanges[class] {\n\t\tfor i := r[0]; i <= r[1] && i < zzsim.MaxSites; i++ {\n\t\t\tzzsim.SiteMark[i] = 1\n\t\t}\n\t}\n}\n")
 	fmt.Fprintf(&b, "\nconst totalSites = %d\n", len(rep.Sites))
 	return os.WriteFile(filepath.Join(dir, "sites_gen.go"), b.Bytes(), 0644)
+}
+
+// ---- cmd/php-parser: whole-program scenario support (DESIGN.md 4.1 C)
+
+// what replaces process-global facilities: import path -> selector -> name in zzsimos
+var cmdRedirect = map[string]map[string]string{
+	"os":      {"Exit": "Exit", "Stdout": "Stdout", "Stderr": "Stderr", "Args": "Args"},
+	"fmt":     {"Print": "Print", "Println": "Println", "Printf": "Printf"},
+	"log":     {"Fatal": "Fatal", "Fatalf": "Fatalf", "Fatalln": "Fatalln", "Print": "LogPrint", "Printf": "LogPrintf", "Println": "LogPrintln", "Panic": "Panic", "Panicf": "Panicf"},
+	"runtime": {"GOMAXPROCS": "GOMAXPROCS", "NumCPU": "NumCPU"},
+}
+
+func importName(im *ast.ImportSpec) string {
+	if im.Name != nil {
+		return im.Name.Name
+	}
+	p, _ := strconv.Unquote(im.Path.Value)
+	if k := strings.LastIndex(p, "/"); k >= 0 {
+		p = p[k+1:]
+	}
+	return p
+}
+
+func rewriteCmd(fset *token.FileSet, f *ast.File, rel string, in *inst) {
+	if f.Name.Name == "main" {
+		f.Name.Name = "zzcli"
+	}
+	for _, d := range f.Decls {
+		if fd, ok := d.(*ast.FuncDecl); ok && fd.Recv == nil && fd.Name.Name == "main" {
+			fd.Name.Name = "ZZMain"
+			rep.CLIMain = true
+		}
+	}
+	local := map[string]string{} // local import name -> std import path
+	for _, im := range f.Imports {
+		p, _ := strconv.Unquote(im.Path.Value)
+		if p == "flag" {
+			im.Path.Value = strconv.Quote(flagPkg)
+			if im.Name == nil {
+				im.Name = ast.NewIdent("flag")
+			}
+			rep.CLI = append(rep.CLI, rel+":flag")
+			continue
+		}
+		if _, ok := cmdRedirect[p]; ok {
+			local[importName(im)] = p
+		}
+	}
+	usedOS := false
+	ast.Inspect(f, func(n ast.Node) bool {
+		se, ok := n.(*ast.SelectorExpr)
+		if !ok {
+			return true
+		}
+		id, ok := se.X.(*ast.Ident)
+		if !ok || id.Obj != nil {
+			return true
+		}
+		if to, ok := cmdRedirect[local[id.Name]][se.Sel.Name]; ok {
+			rep.CLI = append(rep.CLI, fmt.Sprintf("%s:%d %s.%s", rel, fset.Position(se.Pos()).Line, id.Name, se.Sel.Name))
+			id.Name, se.Sel.Name = "zzsimos", to
+			usedOS = true
+		}
+		return true
+	})
+	if usedOS {
+		imp := &ast.GenDecl{Tok: token.IMPORT, Specs: []ast.Spec{&ast.ImportSpec{Name: ast.NewIdent("zzsimos"), Path: &ast.BasicLit{Kind: token.STRING, Value: strconv.Quote(osPkg)}}}}
+		f.Decls = append([]ast.Decl{imp}, f.Decls...)
+	}
+}
+
+// fixUnusedImports blanks imports that the redirection left without a use.
+func fixUnusedImports(f *ast.File) {
+	used := map[string]bool{}
+	ast.Inspect(f, func(n ast.Node) bool {
+		if se, ok := n.(*ast.SelectorExpr); ok {
+			if id, ok := se.X.(*ast.Ident); ok && id.Obj == nil {
+				used[id.Name] = true
+			}
+		}
+		return true
+	})
+	for _, d := range f.Decls {
+		gd, ok := d.(*ast.GenDecl)
+		if !ok || gd.Tok != token.IMPORT {
+			continue
+		}
+		for _, sp := range gd.Specs {
+			im := sp.(*ast.ImportSpec)
+			if n := importName(im); n != "_" && n != "." && !used[n] {
+				im.Name = ast.NewIdent("_")
+			}
+		}
+	}
+}
+
+type stubImporter struct{}
+
+func (stubImporter) Import(path string) (*types.Package, error) {
+	name := path
+	if k := strings.LastIndex(name, "/"); k >= 0 {
+		name = name[k+1:]
+	}
+	p := types.NewPackage(path, name)
+	p.MarkComplete()
+	return p, nil
+}
+
+// desugarChanRanges rewrites `for x := range ch { body }` over a channel into
+// `for { x, ok := <-ch; if !ok { break }; body }` so that the receive becomes a
+// statement-level channel operation the simulator can wait for. Whether the
+// range expression is a channel is found by a best-effort type check of the
+// file alone (imports are stubbed, errors ignored): channels declared in the
+// file itself - parameters, locals, package variables - are recognised.
+func desugarChanRanges(fset *token.FileSet, f *ast.File, rel string) {
+	hasChan := false
+	ast.Inspect(f, func(n ast.Node) bool {
+		if _, ok := n.(*ast.ChanType); ok {
+			hasChan = true
+		}
+		return !hasChan
+	})
+	if !hasChan {
+		return
+	}
+	info := &types.Info{Types: map[ast.Expr]types.TypeAndValue{}}
+	conf := types.Config{Importer: stubImporter{}, Error: func(error) {}, DisableUnusedImportCheck: true}
+	func() {
+		defer func() { recover() }()
+		conf.Check(f.Name.Name, fset, []*ast.File{f}, info)
+	}()
+	isChanRange := func(s ast.Stmt) *ast.RangeStmt {
+		r, ok := s.(*ast.RangeStmt)
+		if !ok {
+			return nil
+		}
+		tv, ok := info.Types[r.X]
+		if !ok || tv.Type == nil {
+			return nil
+		}
+		if _, ok := tv.Type.Underlying().(*types.Chan); !ok {
+			return nil
+		}
+		return r
+	}
+	n := 0
+	conv := func(r *ast.RangeStmt) ast.Stmt {
+		n++
+		okName := ast.NewIdent("zzok" + strconv.Itoa(n))
+		recv := &ast.UnaryExpr{Op: token.ARROW, X: r.X}
+		var pre []ast.Stmt
+		var lhs ast.Expr = ast.NewIdent("_")
+		tok := token.DEFINE
+		if r.Key != nil {
+			lhs = r.Key
+			if r.Tok == token.ASSIGN {
+				tok = token.ASSIGN
+				pre = append(pre, &ast.DeclStmt{Decl: &ast.GenDecl{Tok: token.VAR, Specs: []ast.Spec{&ast.ValueSpec{Names: []*ast.Ident{okName}, Type: ast.NewIdent("bool")}}}})
+			}
+		}
+		pre = append(pre, &ast.AssignStmt{Lhs: []ast.Expr{lhs, okName}, Tok: tok, Rhs: []ast.Expr{recv}})
+		pre = append(pre, &ast.IfStmt{Cond: &ast.UnaryExpr{Op: token.NOT, X: okName}, Body: &ast.BlockStmt{List: []ast.Stmt{&ast.BranchStmt{Tok: token.BREAK}}}})
+		rep.ChanWrapped = append(rep.ChanWrapped, fmt.Sprintf("%s:%d(range)", rel, fset.Position(r.Pos()).Line))
+		return &ast.ForStmt{For: r.For, Body: &ast.BlockStmt{Lbrace: r.Body.Lbrace, List: append(pre, r.Body.List...), Rbrace: r.Body.Rbrace}}
+	}
+	ast.Inspect(f, func(nd ast.Node) bool {
+		var lists []*[]ast.Stmt
+		switch x := nd.(type) {
+		case *ast.BlockStmt:
+			lists = append(lists, &x.List)
+		case *ast.CaseClause:
+			lists = append(lists, &x.Body)
+		case *ast.CommClause:
+			lists = append(lists, &x.Body)
+		case *ast.LabeledStmt:
+			if r := isChanRange(x.Stmt); r != nil {
+				x.Stmt = conv(r)
+			}
+		}
+		for _, l := range lists {
+			for i, s := range *l {
+				if r := isChanRange(s); r != nil {
+					(*l)[i] = conv(r)
+				}
+			}
+		}
+		return true
+	})
 }
